@@ -21,7 +21,7 @@ MIN_CASES_PER_SHARD = 150
 MAX_SHARDS = 4
 CASE_TIMEOUT = 40
 RULE = ("one case = generated map (string and int labels; symmetric dyadic grids with exact ties; two-way streets) x trace (incl. length 1, early "
-        "stops with non-emitting layers in the last matched column) x configuration (all families, non-emitting, widths), executed in 4 (quick) / "
+        "stops with non-emitting layers in the last matched column; 1 in 6 a mirror-symmetric one-way merge with a loop back into one side and the observation on the axis) x configuration (all families, non-emitting, widths), executed in 4 (quick) / "
         "12 (thorough) fresh processes with different PYTHONHASHSEED, plus 2 node/neighbour-order permutations in process. Non-trivial = >= 2 live "
         "candidates in the final matched column; distinct = hash of the case")
 ANCHORS = [("leuvenmapmatching/matcher/base.py", "BaseMatcher._build_node_path"),
